@@ -947,6 +947,11 @@ fn exec(line: &str, base: &str) -> CaseOut {
     };
     let mut recs: Vec<String> = Vec::new();
     let mut plain_ok = true; // the plain reference is meaningful until a known divergence
+    let mut prev_fresh: BTreeMap<String, String> = {
+        let ls = scan_layers(base);
+        let refs: Vec<&BTreeMap<String, Node>> = ls.iter().collect();
+        host::union(&refs)
+    };
     for o in ops.iter() {
         let op: Vec<&str> = o.split(',').collect();
         let name = op[0];
@@ -1017,6 +1022,10 @@ fn exec(line: &str, base: &str) -> CaseOut {
                 m
             }
         };
+        // C11: rmdir of a directory that a restart showed as empty must not fail with ENOTEMPTY
+        if name == "rmdir" && res == "e39" && prev_fresh.contains_key(op[1]) && !prev_fresh.keys().any(|q| q.starts_with(op[1]) && q.len() > op[1].len()) {
+            fire("C11", "C11:rmdir-empty-dir-refused".to_string(), format!("{} answered ENOTEMPTY although the directory is empty (left-over upper whiteouts?)", o), &mut out.oracle);
+        }
         // C11: what was just deleted / re-created must look the same after a restart
         if res.starts_with("ok") && matches!(name, "unlink" | "rmdir") {
             if let Some((q, v)) = fresh_view.iter().find(|(q, _)| q.starts_with(op[1])) {
@@ -1058,6 +1067,7 @@ fn exec(line: &str, base: &str) -> CaseOut {
                 fire("C11", format!("C11:restart-diff:{}:{}", lastop, k), format!("fresh instance vs live after {:?}: {}", &ops[..prev], w), &mut out.oracle);
             }
         }
+        prev_fresh = fresh_view.clone();
         let upper_scan = if up { host::show_scan(&after[0]) } else { "-".to_string() };
         recs.push(format!("{}|{}|{}|{}", res, calls.iter().cloned().collect::<Vec<_>>().join(","), host::show_view(&fresh_view), upper_scan));
         out.classes.push(format!("{}:{}:{}", name, if res.starts_with("ok") { "ok" } else { res.as_str() }, calls.iter().cloned().collect::<Vec<_>>().join("+")));
